@@ -593,7 +593,56 @@ func TestC15Kern(t *testing.T) {
 				}
 			}
 		}
+		// longer runs: every adjacent pair is kerned, also where pairs overlap
+		// (the second glyph of one pair is the first glyph of the next)
+		chains := 0
+		for i := 0; i < 12 && n > 1; i++ {
+			k := rapid.IntRange(3, 8).Draw(t, "runLen")
+			gids := make([]int, k)
+			rr := make([]rune, k)
+			for j := range gids {
+				gids[j] = rapid.IntRange(1, n-1).Draw(t, "runGlyph")
+				rr[j] = rune(0x100 + gids[j])
+			}
+			var out []glyph.Info
+			if pn := guard.Try(func() { out = append([]glyph.Info(nil), l.Layout(string(rr))...) }); pn != nil {
+				t.Fatalf("Layout panicked: %s\n%s", pn, ctx())
+			}
+			if len(out) != k {
+				t.Fatalf("Layout of glyphs %v gives %s\n%s", gids, infoStr(out), ctx())
+			}
+			want := make([]int, k)
+			ok, kerned := true, 0
+			for j := range gids {
+				want[j] = int(funit.Int16(g.GlyphWidth(glyph.ID(gids[j]))))
+				if j+1 < k {
+					kv, representable := refKern(subs, uint16(gids[j]), uint16(gids[j+1]))
+					if !representable || want[j]+kv > 32767 || want[j]+kv < -32768 {
+						ok = false
+						break
+					}
+					want[j] += kv
+					if kv != 0 {
+						kerned++
+					}
+				}
+			}
+			if !ok {
+				continue
+			}
+			for j := range gids {
+				if int(out[j].GID) != gids[j] || int(out[j].Advance) != want[j] || out[j].XOffset != 0 || out[j].YOffset != 0 {
+					t.Fatalf("run %v: glyph %d comes out as %s, want advance %d (all: %s)\n%s", gids, j, infoStr(out[j:j+1]), want[j], infoStr(out), ctx())
+				}
+			}
+			if kerned >= 2 {
+				chains++
+			}
+		}
 		labels := []string{fmt.Sprintf("subtables-%d", ns), "kind-" + c.Kind.String()}
+		if chains > 0 {
+			labels = append(labels, "run-with-overlapping-kerned-pairs")
+		}
 		for _, s := range subs {
 			labels = append(labels, fmt.Sprintf("flags-%#02x", s.flags))
 		}
